@@ -32,6 +32,14 @@ def c13(work, tier, seed):
             scripts.append({"id": "ck%04d" % len(scripts), "kind": "cookie", "cfg": cfg, "mut": "trunc", "pos": (k * 7919 + seed) % 100000, "user": "user1"})
         for m in ("none", "none", "empty", "garbage", "foreign", "anonymous", "anonymous"):
             scripts.append({"id": "ck%04d" % len(scripts), "kind": "cookie", "cfg": cfg, "mut": m, "pos": 0, "user": rng.choice(["user1", "Ünï cødé", "bob@corp.example"])})
+    # gateways that are left to make their own session keys (none configured, or too short), several of them on one
+    # machine (same home and temporary directories): the cookie of a session one of them authenticated means nothing
+    # to another one started from the very same configuration
+    for store in ("cookie", "file"):
+        for ko in ({"sess": "-", "sessenc": "-"}, {"sess": "K" * 31, "sessenc": "E" * 31}, {"sess": "K" * 33, "sessenc": "E" * 33}):
+            cfg = dict(base(store), keyOverride=ko, sharedEnv=True)
+            for m in ("none", "foreign-sameconfig", "foreign-sameconfig"):
+                scripts.append({"id": "ck%04d" % len(scripts), "kind": "cookie", "cfg": cfg, "mut": m, "pos": 0, "user": rng.choice(["user1", "bob@corp.example"])})
     if slow:
         # one slow script at the head of every chunk the driver forms per configuration
         per = max(1, (len(scripts) + len(slow)) // 32)
